@@ -95,6 +95,18 @@ CHECKS = [
         "Lean 4 proof over a hand-written model; correspondence (differential) tie with exhaustive small-scope enumeration; "
         "independent Python oracle for the postconditions; failing-input search",
         "DESIGN.md §7 C17"),
+    chk("C08",
+        "Lean theorems on a model of the partial-axis path (normalize_axis_tuple, _move_reduce_dims_to_end, _collapse_axis, "
+        "offset_labels, nan sentinel, min_count forced to 1, result shapes of chunk_reduce/_squeeze_results and of the graph): for "
+        "ALL sizes, the grouped kernel on offset codes equals the row-wise 1-D kernel (no slice leaks into another), the result for "
+        "a stack is the stack of results, a group absent from a slice gets the fill, every output axis but the last is the i-th "
+        "kept dim in ascending order for every subset/order/sign of axis, eager and announced chunked shapes coincide; the chunked "
+        "graph is proved order-independent for proper subsets of the label dims and, PARTIAL, for all label dims only when the last "
+        "array axis is given last (counterexample theorem; finding C08-F1). Values through the transposition for 3-D labels / "
+        "several axes and the chunked values are tied by differential execution against a NumPy slice-by-slice oracle over the "
+        "exhaustively enumerated axis space.",
+        "Lean 4 proof over a hand-written model; correspondence (differential) tie with exhaustive axis enumeration; failing-input search",
+        "DESIGN.md §7 C08"),
 ]
 
 _PENDING = "check not built yet in this round (planned: Lean model + correspondence, see DESIGN.md §7)"
